@@ -394,6 +394,20 @@ def prov_node_attributes(repo, tier="quick"):
             if m_ and m_[2] == (("const", 0),):
                 e_ = elem_of(m_[0])
                 return bool(e_ and e_[0] == "elem" and is_call(strip_wrappers(e_[1]), "re.finditer") is not None)
+        # the same text taken from the scanned string:  pattern[start + 2:stop - 1]  with  start, stop = match.span()
+        if a and a[0] == "sub" and a[1] == ("param", fi.positional_params[0]) and a[2][0] == "slice" and a[2][3] is None:
+            lo, hi = a[2][1], a[2][2]
+            def span_part(x, i, off):
+                if x and x[0] == "binop" and x[1] == ("+" if off > 0 else "-") and x[3] == ("const", abs(off)):
+                    b = x[2]
+                    if b[0] == "sub" and b[2] == ("const", i):
+                        m_ = method_call(b[1], "span")
+                        if m_ and not m_[2]:
+                            e_ = elem_of(m_[0])
+                            return m_[0] if (e_ and e_[0] == "elem" and is_call(strip_wrappers(e_[1]), "re.finditer") is not None) else None
+                return None
+            m_lo, m_hi = span_part(lo, 0, 2), span_part(hi, 1, -1)
+            return m_lo is not None and m_lo == m_hi
         return False
     good = [p for p in parses if is_token_text(fl.canon(p[0], p[1])[3][0] if fl.canon(p[0], p[1])[3] else None)]
     for p in parses:
@@ -411,13 +425,7 @@ def prov_node_attributes(repo, tier="quick"):
      obs.append(ob_fail(oid, fi, pcall, construct=ast.unparse(pcall), instance="dialect", reason="base-graph node annotations are not parsed with the coarse dialect")))
     # argument: match.group(0)[2:-1] of the loop's match
     a = P[3][0] if P[3] else None
-    ok_arg = False
-    if a and a[0] == "sub" and a[2] == ("slice", ("const", 2), ("const", -1), None):
-        m = method_call(a[1], "group")
-        if m and m[2] == (("const", 0),):
-            e = elem_of(m[0])
-            if e and e[0] == "elem" and is_call(strip_wrappers(e[1]), "re.finditer") is not None:
-                ok_arg = True
+    ok_arg = is_token_text(a)
     (obs.append(ob_ok(oid, fi, pcall, construct="text = match.group(0)[2:-1]", instance="text", reason="the text between '[#' and ']' of this node")) if ok_arg else
      obs.append(ob_fail(oid, fi, pcall, construct="parse argument %s" % show(a), instance="text", reason="the annotation text is not the inside of this node's own token")))
     adds = []
@@ -546,9 +554,26 @@ def ord_parse_pipeline(repo, tier="quick"):
     need(rets, "no return in _parse_dialect_string", fi)
     updates = [fl.canon(c, nid) for c, nid in fl.calls() if isinstance(c.func, ast.Attribute) and c.func.attr == "update"]
     srcs = [show(u[3][0]) for u in updates if u[3]]
-    ok = any("['kwargs']" in s for s in srcs) and any(s.endswith(".arguments") for s in srcs)
-    (obs.append(ob_ok(oid, fi, rets[0].ast, construct="out = {**free keywords, **reserved keys}", instance="merge", reason="free keys are kept verbatim next to the reserved ones")) if ok else
-     obs.append(ob_fail(oid, fi, rets[0].ast, construct="result assembled from %s" % srcs, instance="merge", reason="the result does not merge the free keywords with the reserved keys")))
+    # the dictionary that is returned may also start out as a copy of the free keywords: out = dict(arguments.pop('kwargs', {}))
+    rv = rets[0].ast.value
+    if isinstance(rv, ast.Name):
+        for d in fl.defs:
+            if d.var == rv.id and d.kind == "assign" and d.value is not None:
+                try:
+                    srcs.append(show(fl.canon(d.value, d.node)))
+                except Exception:
+                    pass
+    kw_ok = any("'kwargs'" in s_ for s_ in srcs)
+    res_ok = any(s_.rstrip("~").endswith("arguments") for s_ in srcs)
+    mentions_kwargs = any(isinstance(x, ast.Constant) and x.value == "kwargs" for x in ast.walk(fi.node))
+    if kw_ok and res_ok:
+        obs.append(ob_ok(oid, fi, rets[0].ast, construct="out = {**free keywords, **reserved keys}", instance="merge", reason="free keys are kept verbatim next to the reserved ones"))
+    elif not mentions_kwargs:
+        obs.append(ob_fail(oid, fi, rets[0].ast, construct="result assembled from %s" % srcs, instance="merge",
+                           reason="the catch-all 'kwargs' entry of the bound arguments is never unpacked: free keywords do not reach the result as keys of their own"))
+    else:
+        obs.append(ob_undecided(oid, fi, rets[0].ast, construct="result assembled from %s" % [x[:60] for x in srcs], instance="merge",
+                                reason="cannot see how free keywords and reserved keys are merged into the result"))
     # keys and values are taken verbatim from `entry.split(assign token)`
     verb = {"kw": None, "pos": None}
     for n in cfg.nodes:
@@ -868,7 +893,8 @@ def tt_relative_dispatch(repo, tier="quick"):
     for (label, value, want), combo in itertools.product(scenarios, itertools.product((True, False), repeat=len(flags))):
         env = {mapname: dict(mapping), store: {}, kname: 12, vname: value}
         env.update(dict(zip(flags, combo)))
-        ev = Evaluator()
+        from .truth import helper_inliner
+        ev = Evaluator(call_hook=helper_inliner(fi))
         n += 1
         try:
             ev.block(loop.ast.body, env)
